@@ -637,15 +637,18 @@ class Engine:
         return [(st, "continue")]
 
     def s_Try(self, node, st):
-        if node.finalbody or node.orelse:
-            raise Unsupported("try/finally/else", node)
+        if node.finalbody:
+            raise Unsupported("try/finally", node)
         sink: list = []
         st.handlers = st.handlers + [sink]
         outs = self.exec_block(node.body, st)
         res = []
         for s, flow in outs:
             s.handlers = s.handlers[:-1]
-            res.append((s, flow))
+            if flow is None and node.orelse:
+                res += self.exec_block(node.orelse, s)  # (the else block is outside the scope of the handlers)
+            else:
+                res.append((s, flow))
         outer = st.handlers[:-1]
         for s, exc, line in sink:
             s.handlers = outer
@@ -1411,6 +1414,11 @@ class Engine:
             # a string / number used where any object is expected: boxed by an (uninterpreted) injection of its sort
             box = z3.Function(f"box:{v.ty.name}", v.ty.sort(), TObj.sort())
             return Val(TObj, box(v.t))
+        if ty is TObj and isinstance(v.ty, TTuple):
+            # a tuple used where any object is expected: boxed by an (uninterpreted) injection of its components
+            items = [self.coerce(x, TObj, st, node) for x in v.t]
+            box = z3.Function(f"box:tuple{len(items)}", *([TObj.sort()] * len(items)), TObj.sort()) if items else None
+            return Val(TObj, box(*[x.t for x in items]) if items else TObj.fresh("empty-tuple"))
         if isinstance(ty, TOpt):
             if isinstance(v.ty, TNoneT):
                 return Val(ty, ty.none())
@@ -1637,7 +1645,12 @@ class Engine:
         return r
 
     def e_Compare(self, node, st):
-        left = self.eval(node.left, st)
+        left = None
+        if isinstance(node.ops[0], (ast.Eq, ast.NotEq)) and isinstance(node.left, ast.Call) and \
+                isinstance(node.left.func, ast.Attribute) and node.left.func.attr == "keys" and not node.left.args:
+            left = self._as_set(node.left, st)  # keys views compare as sets (not in iteration order)
+        if left is None:
+            left = self.eval(node.left, st)
         terms = []
         saved = list(st.guards)
         for op, rn in zip(node.ops, node.comparators):
